@@ -64,8 +64,41 @@ def gen_run(seed, tier, i):
         enabled = ["without_isolated", "str"]
     nops = s_ops.randint(1, plan["max_ops"])
     ops = [{"op": s_ops.choice(enabled), "target": s_ops.randrange(64)} for _ in range(nops)]
-    return {"property": NAME, "family": st["family"], "triples": st["triples"], "solver": solver,
-            "tie": s_cfg.randrange(1 << 10), "ops": ops}
+    run = {"property": NAME, "family": st["family"], "triples": st["triples"], "solver": solver,
+           "tie": s_cfg.randrange(1 << 10), "ops": ops}
+    if s_cfg.random() < 0.35:
+        # a second, independent original with the same sequence but other pairs: anything memoised under a
+        # key that is too coarse (sequence, length, ...) makes one answer for the other
+        sib = sibling(s_struct, st["triples"])
+        if sib is not None:
+            run["sibling"] = sib
+    return run
+
+
+def sibling(s, triples):
+    n, pairs = oracles.pairs_of_triples(triples)
+    st = oracles.stems(pairs)
+    seq = oracles.sequence_of_triples(triples)
+    mode = s.choice(["drop_stem", "shift", "fresh", "other_letters", "other_letters"])
+    if mode == "other_letters":
+        # same pairs, another sequence of the same length
+        letters = "".join(s.choice(structures.LETTERS) for _ in range(n))
+        if letters == seq:
+            letters = ("C" if seq[0] != "C" else "G") + seq[1:]
+        return oracles.triples_from(letters, pairs)
+    if mode == "drop_stem" and st:
+        i, j, L = s.choice(st)
+        keep = set(pairs) - {(i + t, j - t) for t in range(L)}
+        return oracles.triples_from(seq, keep)
+    if mode == "shift" and n >= 4:
+        # same letters, a structure of another seeded family cut or padded to the same length
+        other = structures.gen_structure(s, max_stems=5, max_len=3, knotted_bias=0.5)["triples"]
+        m, op = oracles.pairs_of_triples(other)
+        keep = {(i, j) for i, j in op if j <= n}
+        return oracles.triples_from(seq, keep)
+    if n >= 2:
+        return oracles.triples_from(seq, {(1, n)})
+    return None
 
 
 def entries_triples(bp):
@@ -130,6 +163,61 @@ def apply_op(env, op, obj, birth):
     return normalise(raw), raw
 
 
+def spec_problem(op, answer, birth, solver):
+    """(clause, expected, actual) when a query answer contradicts the structure it was asked of."""
+    n, pairs = oracles.pairs_of_triples(birth)
+    seq = oracles.sequence_of_triples(birth)
+    if isinstance(answer, list) and answer[:1] == ["raised"]:
+        return None  # exceptions are compared with the fresh copy only
+    if op == "str":
+        want = "\n".join("%d %s %d" % (i, ch, j) for i, ch, j in birth)
+        if answer != want:
+            return ("text-is-the-bpseq-of-the-structure", want, answer)
+    elif op == "sequence":
+        if answer != seq:
+            return ("sequence-is-the-sequence-of-the-structure", seq, answer)
+    elif op == "pairs":
+        want = sorted([[i, j] for i, j in pairs] + [[j, i] for i, j in pairs])
+        if sorted(answer) != want:
+            return ("pairs-are-the-pairs-of-the-structure", want, sorted(answer))
+    elif op in ("dot_bracket", "fcfs", "convert_sim", "convert_none"):
+        bad = oracles.lossless_problems(seq, n, pairs, answer[1], answer[2])
+        if bad:
+            return ("notation-encodes-the-structure", {"sequence": seq, "pairs": sorted(pairs)}, answer)
+        if op in ("fcfs", "convert_none") or (op == "dot_bracket" and solver == "none"):
+            want = oracles.fcfs_ref(n, pairs)
+            if answer[2] != want:
+                return ("fcfs-is-first-come-first-served", want, answer[2])
+    elif op == "all_dot_brackets":
+        seen = set()
+        for item in answer:
+            bad = oracles.lossless_problems(seq, n, pairs, item[1], item[2])
+            if bad:
+                return ("every-listed-notation-encodes-the-structure", {"sequence": seq, "pairs": sorted(pairs)}, item)
+            if item[2] in seen:
+                return ("listed-notations-are-distinct", "no duplicates", item[2])
+            seen.add(item[2])
+        if not answer:
+            return ("list-of-notations-is-not-empty", ">= 1 notation", answer)
+    elif op == "elements":
+        stems_txt = answer[0]
+        want = oracles.stems(pairs)
+        got = []
+        for t in stems_txt:
+            f = t.split()
+            got.append((int(f[1]), int(f[6]), int(f[2]) - int(f[1]) + 1))
+        if sorted(got) != sorted(want):
+            return ("element-stems-are-the-stems-of-the-structure", sorted(want), sorted(got))
+    elif op == "paired":
+        want = [[i, seq[i - 1], j] for i, j in sorted(pairs)]
+        if answer != want:
+            return ("paired-entries-are-the-paired-entries", want, answer)
+    elif op == "eq_fresh":
+        if answer is not True:
+            return ("equal-to-a-fresh-copy", True, answer)
+    return None
+
+
 def cache_mask(obj):
     m = 0
     for bit, name in enumerate(ALL_SLOTS):
@@ -157,6 +245,10 @@ def execute_run(run, tmpdir):
         pool = [solve_engine.make_bpseq(run["triples"])]
         births = [copy.deepcopy(run["triples"])]
         origin = ["original"]
+        if run.get("sibling"):
+            pool.append(solve_engine.make_bpseq(run["sibling"]))
+            births.append(copy.deepcopy(run["sibling"]))
+            origin.append("sibling")
         touched = set()
         ref_cache = {}
 
@@ -180,6 +272,11 @@ def execute_run(run, tmpdir):
             events.log("op.return", rng.digest(answer)[:16])
             if answer != expected:
                 violations.append(_v(k, "answer-equals-fresh-copy", op, expected, answer))
+            # independent clauses (they do not go through a second copy of the code under test, so process-
+            # or class-level state shared by the receiver and the fresh copy cannot hide behind them)
+            spec = spec_problem(op, answer, births[t], run["solver"])
+            if spec:
+                violations.append(_v(k, spec[0], op, spec[1], spec[2]))
             if op in DERIVATIONS and raw is not None:
                 child = raw
                 ctr = entries_triples(child)
@@ -286,6 +383,8 @@ def shrink_candidates(run, v):
         yield dict(run, solver="sim")
     if run["tie"]:
         yield dict(run, tie=0)
+    if run.get("sibling"):
+        yield {k: v for k, v in run.items() if k != "sibling"}
     for t in shrink.structure_candidates(run["triples"]):
         if t:
             yield dict(run, triples=t)
